@@ -174,6 +174,23 @@ CLAIMED.update({
     ),
 })
 
+CLAIMED.update({
+    "C03": dict(
+        technique="abstract evaluation of _init_subclass over all 16 subsets of defining functions, sibling (skeleton) agreement of the variant methods, units-of-measure type inference with symbolic exponents, cross-site agreement of TPL weights, belief-contradiction lint (rounding vs truncation)",
+        text="For every way a subclass can define a model (16 subsets) the four functions end up bound acyclically and the derived bodies are the stated identities; axis/spatial/Yadrenko/nugget variants differ from each other "
+        "only in the base function; cor/correlation/integral-scale/TPL formulas are dimensionally homogeneous; formula switches on shape parameters are paired between cor and spectral_density; integer orders of special "
+        "functions are rounded under an is-nearly-integer guard; truncated-power-law weights len**(2 hurst) agree at all six sites. These are necessary conditions; equality with the documented closed forms as values is not decided.",
+        ref="DESIGN.md section 4 C03",
+    ),
+    "C04": dict(
+        technique="units-of-measure type inference (L^e V^c with linear-form exponents over dim/hurst/..., per dim-branch path) over every analytic spectral formula and the generator amplitude/weight/wave-number expressions; constant folding of cdf/ppf offers; composition checks; alias check of the Hankel defaults",
+        text="Every analytic spectral density, radial cdf/ppf, surface factor, radial pdf, spectrum and the generators' amplitude, weight, wave-number and phase expressions are dimensionally homogeneous with the contract "
+        "(k: 1/L, density: L^dim, spectrum: V L^dim, pdf: L, cdf: 1, ppf: 1/L, amplitudes sqrt(V), phases 1); a radial cdf/ppf is offered exactly where implemented; spectrum = var x density, pdf = surface x |density| clamped, "
+        "default density = Hankel transform for the current dimension with per-model settings. A wrong numeric factor keeps units: that the density IS the Fourier transform of the correlation is not decided.",
+        ref="DESIGN.md section 4 C04, section 3 E6",
+    ),
+})
+
 NOT_APPLICABLE = {
     "C01": "distributional property over seeds (ensemble mean/covariance at Monte-Carlo rate); no code-shape clause beyond those decided under C04/C11/C12 - needs sampling or quadrature, a different technique family",
 }
@@ -226,7 +243,7 @@ def main():
     print("MANIFEST.json: %d checks, %d not_applicable" % (len(checks), len(na)))
 
 
-SOURCE_COMMITS = ["c203823", "0fd70cf", "8261140", "84533cc", "edeae19", "d657645", "566cb9d", "703cc68", "c388d81", "759d47b", "c08711b"]
+SOURCE_COMMITS = ["c203823", "0fd70cf", "8261140", "84533cc", "edeae19", "d657645", "566cb9d", "703cc68", "c388d81", "759d47b", "5c1e00f", "c08711b"]
 
 if __name__ == "__main__":
     main()
